@@ -245,6 +245,32 @@ theorem edge_triplet_eq (es : List (Edge α)) (vs : List (Vertex α)) (nV : Nat)
   simp only [Graph.edgeTriplet, get_edge_by_id es vs nV h e he, get_vertex_general,
     List.getElem?_eq_getElem (hb e he).1, List.getElem?_eq_getElem (hb e he).2]
 
+theorem tripletIdsGo_listed (es : List (Edge α)) (vs : List (Vertex α)) (nV : Nat) (h : RowIds es)
+    (v : Nat) (d : Direction) (l : List (Edge α)) (hl : ∀ e ∈ l, e ∈ es) :
+    Graph.tripletIdsGo (buildGraph es vs nV) v d (l.map Edge.edgeId) =
+      .ok (l.map (fun e => (v, e.edgeId, match d with | .forward => e.dst | .reverse => e.src))) := by
+  induction l with
+  | nil => rfl
+  | cons e l ih =>
+    have he := src_dst_vertex_id es vs nV h e (hl e (by simp))
+    have ih' := ih (fun x hx => hl x (by simp [hx]))
+    cases d with
+    | forward => simp only [List.map_cons, Graph.tripletIdsGo, he.2.2.1, ih']
+    | reverse => simp only [List.map_cons, Graph.tripletIdsGo, he.2.2.2, ih']
+
+/-- `incident_triplet_ids`: for each listed edge at `v` in the direction of travel, (v, edge, far end) -/
+theorem incident_triplet_ids_eq (es : List (Edge α)) (vs : List (Vertex α)) (nV : Nat) (h : RowIds es)
+    (hb : EndpointsBelow es nV) (v : Nat) :
+    (buildGraph es vs nV).incidentTripletIds v .forward =
+      .ok ((es.filter (fun e => e.src = v)).map (fun e => (v, e.edgeId, e.dst))) ∧
+    (buildGraph es vs nV).incidentTripletIds v .reverse =
+      .ok ((es.filter (fun e => e.dst = v)).map (fun e => (v, e.edgeId, e.src))) := by
+  constructor
+  · simp only [Graph.incidentTripletIds, Graph.incidentEdges, out_edges_eq es vs nV h hb]
+    exact tripletIdsGo_listed es vs nV h v .forward _ (fun e he => (List.mem_filter.1 he).1)
+  · simp only [Graph.incidentTripletIds, Graph.incidentEdges, in_edges_eq es vs nV h hb]
+    exact tripletIdsGo_listed es vs nV h v .reverse _ (fun e he => (List.mem_filter.1 he).1)
+
 /-- per-edge tables (speeds, grades, headings, classes) are aligned with edge ids by row: the entry
 looked up for edge `e` is row `e` of the table, and a table with one row per edge covers every edge -/
 theorem table_aligned {β : Type} (table : List β) (es : List (Edge α)) (h : RowIds es)
@@ -484,6 +510,7 @@ example : (buildGraph (star 7) (wVertices 3) 3).outEdges 0 = [0, 1, 2, 3, 4, 5, 
 example : (buildGraph (star 7) (wVertices 3) 3).inEdges 0 = [0, 3, 6] := by decide
 example : (buildGraph (star 7) (wVertices 3) 3).inEdges 1 = [1, 4] := by decide
 example : (buildGraph (star 7) (wVertices 3) 3).getEdge 5 = .ok ⟨5, 0, 2, 6⟩ := by decide
+example : (buildGraph (star 7) (wVertices 3) 3).incidentTripletIds 1 .reverse = .ok [(1, 1, 0), (1, 4, 0)] := by decide
 example : (buildGraph (star 7) (wVertices 3) 3).edgeTriplet 5 = .ok (⟨0, 0, 0⟩, ⟨5, 0, 2, 6⟩, ⟨2, 20, 40⟩) := by decide
 example : ∃ g, graphFromFiles ⟨true, 8, (star 7).map Row.ok⟩ ⟨true, 4, (wVertices 3).map Row.ok⟩ none none = .ok g ∧
     Describes g (star 7) (wVertices 3) :=
